@@ -5,7 +5,8 @@ sys.path.insert(0, os.path.join(HERE, 'engine'))
 import gosym, models
 
 REPO = os.environ.get('VERIF_REPO', '/repo')
-OUT = os.path.join(HERE, 'out')
+OUT = os.environ.get('VERIF_OUT') or os.path.join(HERE, 'out')   # VERIF_REPO/VERIF_OUT: used by tools/seedmatrix.sh only
+EVIDENCE_DIR = os.path.join(OUT, 'evidence') if os.environ.get('VERIF_OUT') else os.path.join(HERE, 'evidence')
 MOD = 'github.com/bilibili/smgo'
 PKGS = [MOD + '/sm2', MOD + '/sm3', MOD + '/sm4', MOD + '/utils', MOD + '/sm2/internal', MOD + '/sm2/internal/fiat',
         'crypto/subtle']
@@ -18,7 +19,7 @@ GOENV = dict(os.environ, GOFLAGS='-mod=mod', GOPROXY='off', GOSUMDB='off', GOTOO
 
 
 def ensure_tools():
-    binp = os.path.join(OUT, 'bin', 'ssajson')
+    binp = os.path.join(HERE, 'out', 'bin', 'ssajson')
     src = os.path.join(HERE, 'tools', 'ssajson')
     if not os.path.exists(binp) or os.path.getmtime(binp) < os.path.getmtime(os.path.join(src, 'main.go')):
         os.makedirs(os.path.dirname(binp), exist_ok=True)
